@@ -64,6 +64,7 @@ PINNED = {
     "use_overrides_inherited_opacity_spelled_differently": '<svg xmlns="http://www.w3.org/2000/svg" xmlns:xlink="http://www.w3.org/1999/xlink" viewBox="0 0 40 20"><defs><g fill-opacity=".5" stroke-width="2.50"><rect id="r" width="10" height="10" fill="red"/></g></defs><use xlink:href="#r" x="5" y="5" fill-opacity="1"/><use xlink:href="#r" x="25" y="5"/></svg>',
     "opacity_above_one": '<svg xmlns="http://www.w3.org/2000/svg" viewBox="0 0 60 20"><rect x="2" y="2" width="16" height="16" fill="red" opacity="2" fill-opacity="0.25"/><g opacity="0.5"><rect x="22" y="2" width="16" height="16" fill="blue" opacity="3"/></g><rect x="42" y="2" width="16" height="16" fill="green" stroke="black" stroke-width="2" opacity="1.5" stroke-opacity="0.5"/></svg>',
     "tiny_coordinates": '<svg xmlns="http://www.w3.org/2000/svg" viewBox="0 0 10 10"><path d="M0.00002,0.0000349 L5,0.000001 L5,5.00000049 L-0.0000151,3 Z"/></svg>',
+    "initial_fill_under_a_styled_group": '<svg xmlns="http://www.w3.org/2000/svg" viewBox="0 0 20 10"><g style="fill:magenta"><path d="M1,1 L9,1 L9,9 L1,9 Z M5,5" fill="black"/><rect x="11" y="1" width="8" height="8"/></g></svg>',
     "fill_and_stroke_under_opacity": '<svg xmlns="http://www.w3.org/2000/svg" viewBox="0 0 40 40"><rect x="10" y="10" width="20" height="20" fill="red" stroke="blue" stroke-width="10" opacity="0.5"/></svg>',
     "nested_svg_carries_paint": '<svg xmlns="http://www.w3.org/2000/svg" viewBox="0 0 40 40"><svg fill="red" opacity="0.5" width="40" height="40"><rect width="10" height="10"/><rect x="5" y="5" width="10" height="10" fill="blue"/></svg><svg display="none" width="40" height="40"><rect x="20" width="10" height="10"/></svg><rect x="20" y="20" width="5" height="5"/></svg>',
     "nested_svg_viewbox_equals_viewport_with_offset": '<svg xmlns="http://www.w3.org/2000/svg" viewBox="0 0 100 100"><svg x="10" y="10" width="50" height="50" viewBox="10 10 50 50"><rect x="10" y="10" width="20" height="20"/></svg></svg>',
